@@ -654,6 +654,8 @@ class Node(object):
         next_node = self.next_node_for_jockeying(reneging_individual)
         self.individuals[reneging_individual.prev_priority_class].remove(reneging_individual)
         self.number_of_individuals -= 1
+        if self.dynamic_classes:
+            self.find_next_class_change()
         reneging_individual.queue_size_at_departure = self.number_of_individuals
         reneging_individual.exit_date = self.now
         self.write_reneging_record(reneging_individual)
